@@ -146,6 +146,9 @@ def gen_year_boundary(rng, st):
     if rng.random() < 0.5:
         rows.append(mkrow(jan1 + off + rng.choice(OFFSETS), "Buy", rng.choice(afs), sh=D(2), aps=price, com=None))
     rows.sort(key=lambda r: r["sd"])
+    for r in rows:
+        # traded up to three days before settling (a December trade may settle in January)
+        r["td"] = r["sd"] - rng.choice([0, 0, 2, 3])
     return rows, [cutrow, cutrow + 1]
 
 
@@ -229,6 +232,28 @@ def corpus():
           mkrow(b + 343, "Sell", None, sh=D(61375, 5), aps=D(11), com=D(0))]
     c.append((gs, b + 280, False))
     c.append((gs, b + 280, True))
+    # gains traded in December and settled in January belong to the settlement year (annual mode), also when
+    # the year's other gains settle in the trade year
+    o = datetime.date.toordinal
+    yb = [mkrow(o(datetime.date(2019, 3, 5)), "Buy", None, sh=D(100), aps=D(10), com=None),
+          mkrow(o(datetime.date(2019, 10, 3)), "Sell", None, sh=D(10), aps=D(15), com=None),
+          dict(mkrow(o(datetime.date(2020, 1, 2)), "Sell", None, sh=D(10), aps=D(18), com=None), td=o(datetime.date(2019, 12, 30))),
+          mkrow(o(datetime.date(2020, 9, 3)), "Sell", None, sh=D(10), aps=D(20), com=None)]
+    for cut in (o(datetime.date(2020, 6, 30)), o(datetime.date(2020, 1, 2)), o(datetime.date(2020, 1, 1))):
+        c.append((yb, cut, True))
+        c.append((yb, cut, False))
+    # a re-emitted sale whose superficial loss the user forced to zero: the override is kept, forced, on re-emission
+    fz = [mkrow(o(datetime.date(2020, 1, 8)), "Buy", None, sh=D(100), aps=D(10), com=None),
+          mkrow(o(datetime.date(2020, 5, 6)), "Buy", None, sh=D(10), aps=D(8), com=None),
+          mkrow(o(datetime.date(2020, 5, 13)), "Sell", None, sh=D(20), aps=D(7), com=None, sfl=(D(0), True)),
+          mkrow(o(datetime.date(2020, 5, 27)), "Sell", None, sh=D(20), aps=D(6), com=None),
+          mkrow(o(datetime.date(2020, 9, 3)), "Sell", None, sh=D(30), aps=D(12), com=None)]
+    for cut in (o(datetime.date(2020, 5, 20)), o(datetime.date(2020, 5, 13)), o(datetime.date(2020, 5, 26))):
+        c.append((fz, cut, False))
+        c.append((fz, cut, True))
+    fz2 = [dict(r) for r in fz]
+    fz2[2] = dict(fz2[2], sfl=(D(-2500, 2), True))      # forced non-zero value
+    c.append((fz2, o(datetime.date(2020, 5, 20)), False))
     return c
 
 
